@@ -12,6 +12,11 @@ and appends every `line` to its `lines` and every `expected_reply` to its `impl`
     kind       argument   real call                               expected reply
     'dumps'    a value    json.dumps(v)                           hex of the text
     'dumpss'   a value    json.dumps(v, sort_keys=True)           hex of the text
+    'cj'       a value    json.dumps(v, sort_keys=True, separators=(',', ':'), ensure_ascii=False)
+                                                                  hex of the text (`harness.impl.cj`)
+    'dumpsf'   (v, ascii, w1, w2, w3, w4)
+                          json.dumps(v, ensure_ascii=ascii, separators=(w1 + ',' + w2, w3 + ':' + w4))
+                                                                  hex of the text
     'loads'    a text     json.loads(text)                        hex of the canonical encoding of the value
                                                                   | err JSONDecodeError | unsupported
 
@@ -192,7 +197,9 @@ def _text_digit_run(text):
 
 def excluded(kind, x):
     """reason why the input is outside what is compared (E1..E3 of the module docstring), or None"""
-    if kind in ('dumps', 'dumpss'):
+    if kind == 'dumpsf':
+        x = x[0]
+    if kind in ('dumps', 'dumpss', 'cj', 'dumpsf'):
         if _depth(x) > MAX_DEPTH:
             return 'E2 depth'
         if _max_int_digits(x) >= _int_limit() - 1:
@@ -248,13 +255,24 @@ def pyjson_lines(kind, x):
     """[(request line for the Lean driver, reply computed from the real json module)]; [] when `excluded(kind, x)`"""
     if excluded(kind, x):
         return []
-    if kind in ('dumps', 'dumpss'):
+    if kind in ('dumps', 'dumpss', 'cj'):
         try:
             t = enc_value(x)
         except ValueError:
             return [('pyjson unsupported', 'unsupported')]
-        text = json.dumps(x) if kind == 'dumps' else json.dumps(x, sort_keys=True)
+        if kind == 'cj':
+            text = json.dumps(x, sort_keys=True, separators=(',', ':'), ensure_ascii=False)
+        else:
+            text = json.dumps(x) if kind == 'dumps' else json.dumps(x, sort_keys=True)
         return [(f'pyjson {kind} {hx(t)}', hx(text))]
+    if kind == 'dumpsf':
+        v, ascii_, w1, w2, w3, w4 = x
+        try:
+            t = enc_value(v)
+        except ValueError:
+            return [('pyjson unsupported', 'unsupported')]
+        text = json.dumps(v, ensure_ascii=bool(ascii_), separators=(w1 + ',' + w2, w3 + ':' + w4))
+        return [(f'pyjson dumpsf {int(bool(ascii_))} {hx(w1)} {hx(w2)} {hx(w3)} {hx(w4)} {hx(t)}', hx(text))]
     if kind == 'loads':
         return [(f'pyjson loads {hx(x)}', loads_expected(x))]
     raise ValueError(kind)
@@ -389,10 +407,14 @@ class _Sink:
             self.mc.close()
 
 
-def _value_round(sink, v):
-    """dumps, dumpss and loads of both produced texts"""
+_WS = ['', '', ' ', '\n', '\t', '\r', '  ', ' \n\t']
+
+
+def _value_round(sink, v, rng=None):
+    """dumps, dumpss, cj (and dumpsf in a random format) and loads of the produced texts"""
     sink.add(pyjson_lines('dumps', v))
     sink.add(pyjson_lines('dumpss', v))
+    sink.add(pyjson_lines('cj', v))
     if excluded('dumps', v):
         return
     try:
@@ -401,6 +423,12 @@ def _value_round(sink, v):
         return
     sink.add(pyjson_lines('loads', json.dumps(v)))
     sink.add(pyjson_lines('loads', json.dumps(v, sort_keys=True)))
+    sink.add(pyjson_lines('loads', json.dumps(v, sort_keys=True, separators=(',', ':'), ensure_ascii=False)))
+    if rng is not None:
+        a = rng.random() < 0.5
+        w = [rng.choice(_WS) for _ in range(4)]
+        sink.add(pyjson_lines('dumpsf', (v, a, *w)))
+        sink.add(pyjson_lines('loads', json.dumps(v, ensure_ascii=a, separators=(w[0] + ',' + w[1], w[2] + ':' + w[3]))))
 
 
 _MUT_POOL = list('"\\/,:{}[] \t\n\r0123456789.-+eEnulltruefalsNaInity') + ['\x00', '\x1f', '\x7f', 'é', '\U0001f600', '\\u',
@@ -486,7 +514,11 @@ def self_test(seed=1, verbose=True, trees=6000, mutants=30000):
         for i in range(0, len(scalars), 700):
             s = ''.join(chr(c) for c in scalars[i:i + 700])
             sink.add(pyjson_lines('dumps', s))
+            sink.add(pyjson_lines('cj', s))
+            sink.add(pyjson_lines('dumpsf', ([s, {s: s}], False, '', ' ', '', ' ')))
+            sink.add(pyjson_lines('dumpsf', ([s, {s: s}], True, '', ' ', '', ' ')))
             sink.add(pyjson_lines('loads', json.dumps(s)))
+            sink.add(pyjson_lines('loads', json.dumps(s, ensure_ascii=False)))
             sink.add(pyjson_lines('dumps', {s: [s]}))
             raw = ''.join(ch for ch in s if ord(ch) >= 0x20 and ch not in '"\\')
             sink.add(pyjson_lines('loads', '"' + raw + '"'))
@@ -520,9 +552,9 @@ def self_test(seed=1, verbose=True, trees=6000, mutants=30000):
         sink.tag = 'trees'
         for k in range(trees):
             v = _rval(rng, rng.choice([0, 1, 2, 3, 4, 6]))
-            _value_round(sink, v)
+            _value_round(sink, v, rng)
             if k % 3 == 0:
-                _value_round(sink, _permuted(rng, v))
+                _value_round(sink, _permuted(rng, v), rng)
         for d in (1, 2, 10, 50, 150, MAX_DEPTH - 1):
             v = w = []
             for i in range(d - 1):
@@ -543,6 +575,8 @@ def self_test(seed=1, verbose=True, trees=6000, mutants=30000):
         for v in (1.5, [1.0], {'a': float('nan')}, {1: 2}, {None: 1}, {'a': {2: 3}}, ['\ud800'], {'\udc00': 1}, (1, 2), {'a': (1,)}):
             sink.add(pyjson_lines('dumps', v))
             sink.add(pyjson_lines('dumpss', v))
+            sink.add(pyjson_lines('cj', v))
+            sink.add(pyjson_lines('dumpsf', (v, True, '', ' ', '', ' ')))
         # ---- whitespace variants and mutants of produced texts
         for tag, count in (('spaced', 4000), ('mutants', mutants)):
             sink.tag = tag
